@@ -6,6 +6,34 @@
 (*  - export: tool schemas as JSON-Schema objects, cases with tagged JSON     *)
 EXTENDS TypedToolDefs, Json
 
+(* the case sets *)
+InCases ==
+  {InCase("in", vr, "map", FALSE, ClassAt(ix), ArgsAt(ix)) : vr \in Variants, ix \in ArgIx}
+  \cup {InCase("in", vr, "map", FALSE, <<NonObjLab[i]>>, NonObjArgs[i]) : vr \in Variants, i \in DOMAIN NonObjArgs}
+RInCases ==
+  UNION {{InCase("rin", NoVariant, ty, ch, GoClassAt(ty, ix), GoArgsAt(ty, ix)) : ix \in GoArgIx(ty), ch \in BOOLEAN}
+         : ty \in GoInTypes}
+  \cup {InCase("rin", NoVariant, ty, ch, <<NonObjLab[i]>>, NonObjArgs[i]) : ty \in GoInTypes, ch \in BOOLEAN, i \in DOMAIN NonObjArgs}
+
+OutCases ==
+  \* explicit schema, Out = any
+  {OutCase(sid, "any", FALSE, x, x[1] = "null", ct) : sid \in OutSchemaIds, x \in AnyVals, ct \in BOOLEAN}
+  \* explicit schema, typed Out
+  \cup {OutCase(sid, "map", FALSE, x, FALSE, ct) : sid \in ObjIds, x \in ObjVals, ct \in BOOLEAN}
+  \cup {OutCase(sid, "map", FALSE, EmptyObj, TRUE, ct) : sid \in ObjIds, ct \in BOOLEAN}
+  \cup {OutCase("arr", "ints", FALSE, x, FALSE, ct) : x \in IntArrVals, ct \in BOOLEAN}
+  \cup {OutCase("arr", "ints", FALSE, JNull, TRUE, ct) : ct \in BOOLEAN}
+  \cup {OutCase("int", "int", FALSE, x, FALSE, ct) : x \in IntVals, ct \in BOOLEAN}
+  \cup {OutCase("enum", "str", FALSE, x, FALSE, ct) : x \in StrVals, ct \in BOOLEAN}
+  \* reflected schema
+  \cup {OutCase("reflect", k, ch, x, FALSE, ct) : k \in {"struct", "ptr"}, x \in OutSVals, ch \in BOOLEAN, ct \in BOOLEAN}
+  \cup {OutCase("reflect", "ptr", ch, ZeroOutS, TRUE, ct) : ch \in BOOLEAN, ct \in BOOLEAN}
+  \cup {OutCase("reflect", "strs", ch, x, x[1] = "null", ct) :
+          x \in {JNull, JArr(<<>>), JArr(<<JStr("x"), JStr("y")>>)}, ch \in BOOLEAN, ct \in BOOLEAN}
+  \cup {OutCase("reflect", "rint", ch, x, FALSE, ct) : x \in {JInt(0), JInt(7)}, ch \in BOOLEAN, ct \in BOOLEAN}
+  \cup {OutCase("reflect", "rstr", ch, x, FALSE, ct) : x \in {JStr(""), JStr("a")}, ch \in BOOLEAN, ct \in BOOLEAN}
+  \cup {OutCase("reflect", "rbool", ch, JBool(b), FALSE, ct) : b \in BOOLEAN, ch \in BOOLEAN, ct \in BOOLEAN}
+
 InAll == InCases \cup RInCases
 
 FailIn(c)  == IF HoldsIn(c, ExpectedIn(c)) THEN FALSE
